@@ -11,7 +11,10 @@ NEED = ("h4x",)
 RULE = ("base files built by the workload library (H elements incl. linked blocks and several DD blocks, Vdata+Vgroup, "
         "SD datasets, GR images, annotations) with generated DD-block sizes; generated append-only sessions (new H "
         "elements of generated sizes, enough to need new DD blocks; new Vdatas/Vgroups; a new SDS; a new GR image; new "
-        "annotations) run once under the ordered stdio write log of the HDF stream; part 1: every write logged before "
+        "annotations; members added to an existing Vgroup and attributes added to an existing Vdata, whose "
+        "headers are rewritten through descriptor reuse; appending records into the unused tail of an existing "
+        "Vdata's last linked block, or changing the class of an existing Vdata (header of unchanged or smaller size, "
+        "rewritten in place) are not generated: they change an existing object rather than adding one) run once under the ordered stdio write log of the HDF stream; part 1: every write logged before "
         "the flush marker starts at or beyond used_end(base) computed from the base file's descriptors by the "
         "independent reader; part 2: for every prefix of the write log (H/V sessions: all prefixes incl. inside the "
         "flush; SD/GR/AN sessions: prefixes before the flush) the image base+prefix is materialised, parsed by the "
@@ -22,7 +25,7 @@ MIN_NT = {"quick": 500, "thorough": 10000}
 ASSUMPTIONS = ["crash model of the property: a prefix of the ordered, atomic stdio writes on the HDF stream",
                "DD caching at its default (on)"]
 BASES = ["h_elements", "vdata_vgroup", "sd_basic", "gr", "an", "h_many"]
-SESSIONS = ["h_append", "v_append", "sd_append", "gr_append", "an_append"]
+SESSIONS = ["h_append", "v_append", "sd_append", "gr_append", "an_append", "v_edit"]
 ALL_PREFIX = {"h_append", "v_append"}
 
 
@@ -80,6 +83,41 @@ def session_program(kind, fname, params):
         p.raw("!mark flush")
         p.call("i", "Vfinish", V("f"))
         p.call("i", "Hclose", V("f"))
+    elif kind == "v_edit":
+        # adds to EXISTING objects: their headers are rewritten (descriptor reuse) and must go to new space
+        p.call("i", "Hopen", fname, 3, 0, bind="f")
+        p.call("i", "Vinitialize", V("f"))
+        for i, op in enumerate(params["ops"]):
+            if op == "new_vd":
+                p.call("i", "VSattach", V("f"), -1, "w", bind="vs")
+                p.call("i", "VSfdefine", V("vs"), "q", 24, 1)
+                p.call("i", "VSsetfields", V("vs"), "q")
+                p.call("i", "VSsetname", V("vs"), "new%d" % i)
+                p.call("i", "VSwrite", V("vs"), bytes(4 * (i + 2)), i + 2, 0)
+                p.call("i", "VSdetach", V("vs"))
+            elif op == "vg_add":
+                p.call("i", "hx_vattach_named", V("f"), "group", bind="g0")
+                p.call("i", "VQueryref", V("g0"), bind="gref")
+                p.call("i", "Vdetach", V("g0"))
+                p.call("i", "Vattach", V("f"), V("gref"), "w", bind="g")
+                p.call("i", "Vaddtagref", V("g"), 1000, 20 + i)
+                p.call("i", "Vdetach", V("g"))
+            else:
+                p.call("i", "VSfind", V("f"), "table", bind="vr")
+                p.call("i", "VSattach", V("f"), V("vr"), "w", bind="vs")
+                if op == "vs_attr":
+                    p.call("i", "VSsetattr", V("vs"), -1, "added%d" % i, 4, 3, b"xyz")
+                elif op == "vs_class":
+                    p.call("i", "VSsetclass", V("vs"), "class%d" % i)
+                else:
+                    p.call("i", "VSsetfields", V("vs"), "a,b")
+                    p.call("i", "VSseek", V("vs"), 14)
+                    p.call("i", "VSread", V("vs"), Out(12), 1, 0)
+                    p.call("i", "VSwrite", V("vs"), bytes(range(24)), 2, 0)
+                p.call("i", "VSdetach", V("vs"))
+        p.raw("!mark flush")
+        p.call("i", "Vfinish", V("f"))
+        p.call("i", "Hclose", V("f"))
     elif kind == "sd_append":
         p.call("i", "SDstart", fname, 3, bind="sd")
         p.call("i", "SDcreate", V("sd"), "appended", 22, 1, i32s(params["n"]), bind="s")
@@ -111,12 +149,12 @@ def session_program(kind, fname, params):
 
 
 COMPAT = {"h_append": ["h_elements", "h_many", "vdata_vgroup", "an"], "v_append": ["vdata_vgroup", "h_elements", "h_many"],
-          "sd_append": ["sd_basic"], "gr_append": ["gr", "h_many"], "an_append": ["an", "h_many", "h_elements"]}
+          "v_edit": ["vdata_vgroup"], "sd_append": ["sd_basic"], "gr_append": ["gr", "h_many"], "an_append": ["an", "h_many", "h_elements"]}
 
 
 @st.composite
 def strategy_(draw, tier):
-    kind = draw(st.sampled_from(SESSIONS))
+    kind = draw(st.sampled_from(SESSIONS + ["v_edit"]))
     base = draw(st.sampled_from(COMPAT[kind]))
     params = {}
     if kind == "h_append":
@@ -124,11 +162,17 @@ def strategy_(draw, tier):
         params["linked"] = draw(st.booleans())
     elif kind == "v_append":
         params["nvd"] = draw(st.integers(1, 5))
+    elif kind == "v_edit":
+        params["ops"] = draw(st.lists(st.sampled_from(["vg_add", "vg_add", "vs_attr", "new_vd"]), min_size=1,
+                                      max_size=4))
     elif kind in ("sd_append", "gr_append"):
         params["n"] = draw(st.integers(1, 30))
     else:
         params["nann"] = draw(st.integers(1, 6))
-    return {"base": base, "ndds": draw(st.sampled_from([0, 4, 5, 16])), "session": kind, "params": params}
+    case = {"base": base, "ndds": draw(st.sampled_from([0, 4, 5, 16])), "session": kind, "params": params}
+    if kind == "v_edit":
+        case["prep"] = draw(st.sampled_from([None, "touch_vg", "touch_vh"]))
+    return case
 
 
 def strategy(tier):
@@ -168,6 +212,25 @@ def run_case(case):
         try:
             # 1. base file (fault-free, own process)
             bp, fname = base_program(case["base"], case["ndds"])
+            if case.get("prep"):
+                # a further fault-free session of the base: leaves a rewritten Vgroup record / Vdata header as the
+                # last thing in the file
+                bp.call("i", "Hopen", fname, 3, 0, bind="f")
+                bp.call("i", "Vinitialize", V("f"))
+                if case["prep"] == "touch_vg":
+                    bp.call("i", "hx_vattach_named", V("f"), "group", bind="g0")
+                    bp.call("i", "VQueryref", V("g0"), bind="gref")
+                    bp.call("i", "Vdetach", V("g0"))
+                    bp.call("i", "Vattach", V("f"), V("gref"), "w", bind="g")
+                    bp.call("i", "Vaddtagref", V("g"), 1000, 99)
+                    bp.call("i", "Vdetach", V("g"))
+                else:
+                    bp.call("i", "VSfind", V("f"), "table", bind="vr")
+                    bp.call("i", "VSattach", V("f"), V("vr"), "w", bind="vs")
+                    bp.call("i", "VSsetclass", V("vs"), "prepared")
+                    bp.call("i", "VSdetach", V("vs"))
+                bp.call("i", "Vfinish", V("f"))
+                bp.call("i", "Hclose", V("f"))
             rb = run(bp, cwd=d)
             if not rb.done:
                 raise Fail("harness: base workload failed", detail=rb.sanitizer_summary())
